@@ -93,20 +93,37 @@ pub fn arb_net(g: XferGen) -> impl Strategy<Value = NetSpec> {
 pub fn arb_load(g: XferGen) -> impl Strategy<Value = SideLoad> {
     let dg = if g.datagrams {
         prop::collection::vec(
-            (0u32..2_000_000, prop_oneof![0u16..64, 1000u16..1500, 0u16..2000], any::<bool>())
-                .prop_map(|(at_us, size, drop)| TimedOp { at_us, op: AuxOp::Datagram { size, drop } }),
-            0..12,
+            (
+                0u32..2_000_000,
+                prop_oneof![
+                    3 => prop_oneof![0u16..64, 1000u16..1500, 0u16..2000].prop_map(|s| (Some(s), 0i8)),
+                    2 => (-2i8..=2).prop_map(|d| (None, d)),
+                ],
+                any::<bool>(),
+            )
+                .prop_map(|(at_us, (size, delta), drop)| TimedOp {
+                    at_us,
+                    op: match size {
+                        Some(size) => AuxOp::Datagram { size, drop },
+                        None => AuxOp::DatagramRel { delta, drop },
+                    },
+                }),
+            0..40,
         )
         .boxed()
     } else {
         Just(vec![]).boxed()
     };
-    (prop::collection::vec(arb_stream(g.max_total), 0..=g.max_streams), prop::collection::vec(arb_aux(3_000_000, g.allow_close), 0..=g.aux_ops), dg).prop_map(
-        |(streams, mut ops, dg)| {
-            ops.extend(dg);
-            SideLoad { streams, ops }
-        },
+    (
+        prop::collection::vec(arb_stream(g.max_total), 0..=g.max_streams),
+        prop::collection::vec(arb_aux(3_000_000, g.allow_close), 0..=g.aux_ops),
+        dg,
+        prop_oneof![3 => Just(0u8), 1 => 2u8..6],
     )
+        .prop_map(|(streams, mut ops, dg, dgram_recv_every)| {
+            ops.extend(dg);
+            SideLoad { streams, ops, dgram_recv_every }
+        })
 }
 
 pub fn arb_xfer(g: XferGen) -> impl Strategy<Value = Xfer> {
